@@ -272,6 +272,22 @@ def sw_prim(rng, n, kind=None, froude_max=2.5, ratio=10.0, g=9.81):
     return [np.asarray(h, float), np.asarray(u, float)], kind
 
 
+def faces_admissible(disc, mname):
+    """after an rhs call: the reconstructed face states are admissible (density and pressure / depth positive on both sides of every face).
+    An unlimited reconstruction of rough data can produce a face density of -1e-3: the fluxes then divide by it, and round-off
+    differences between twins are amplified without bound (not a symmetry defect)"""
+    if mname in ("euler1d", "nozzle"):
+        idx = (0, 2)
+    elif mname == "shallowwater":
+        idx = (0,)
+    else:
+        return True
+    try:
+        return all(bool(np.all(np.asarray(side[i], float) > 0)) for side in (disc.pL, disc.pR) for i in idx)
+    except Exception:   # noqa
+        return True
+
+
 def refused_integer_field(exc):
     """the unchanged library stops the time integration of an integer-typed field with numpy's casting error (add_res does
     `data += dt*residual`): loud, outside the properties -- such a case is skipped; a run that goes through is judged"""
